@@ -314,6 +314,11 @@ def big_doc(rng, family, scale):
         if where == "comment":
             return "@comment{" + run_ + "}\n" + e % 2
         return e % 1 + "see @" + run_ + " for details\n" + e % 2
+    if family == "unicode_soup":
+        pool = ["\x00", "\x0b", "\x0c", "\x1c", "\x1d", "\x1e", "\x1f", "\x85", "\u2028", "\u2029", "\u00a0", "\u200b", "\ufeff", "\u202e",
+                "\u0301", "\U0001f600", "\U000e0001", "\u3000", "é", "日", "ß", "\r", "\n", "\t", " ", "@", "{", "}", '"', ",", "=", "\\", "a", "Z", "9", "_",
+                "@a{", "@string{", "@comment{", "@preamble{", "k", "#"]
+        return "".join(rng.choice(pool) for _ in range(scale))
     if family == "deep_unclosed":
         return e % 1 + "@article{k, title = " + "{" * scale + "x"
     if family == "unterminated_eof":
@@ -330,4 +335,4 @@ def big_doc(rng, family, scale):
 
 BIG_FAMILIES = ["blank_runs", "banner", "many_entries", "long_value", "deep_nesting", "deep_unclosed",
                 "unterminated_eof", "long_comment_block", "mark_soup", "many_fields",
-                "deep_nesting_blocks", "deep_quote_nesting", "long_runs", "long_runs", "deep_nesting_blocks"]
+                "deep_nesting_blocks", "deep_quote_nesting", "long_runs", "long_runs", "deep_nesting_blocks", "unicode_soup", "unicode_soup"]
